@@ -259,6 +259,7 @@ type c16payload struct {
 type c16verdict struct {
 	kind, detail string
 	compared2    bool
+	yamlRejected bool
 }
 
 // c16judgeDoc runs one (type, document).
@@ -396,7 +397,7 @@ func c16judgeDoc(t c16type, keys []string, st map[string]int, prefill bool) c16v
 		if st["r"] > 1 {
 			r = []any{4}
 		}
-		if st["q"] == 1 || st["r"] == 1 {
+		if st["q"] == 1 {
 			nullOnNonNillable = true
 		}
 		expected["Rest"] = map[string]any{"Q": q, "R": r}
@@ -429,13 +430,23 @@ func c16judgeDoc(t c16type, keys []string, st map[string]int, prefill bool) c16v
 	if err != nil {
 		return c16verdict{kind: "error", detail: "Unmarshal returned " + err.Error()}
 	}
-	got := c16norm(dst.Elem())
-	gs, es := fmt.Sprintf("%#v", got), fmt.Sprintf("%#v", any(expected))
+	got := c16tag(c16norm(dst.Elem()))
+	gs, es := fmt.Sprintf("%#v", got), fmt.Sprintf("%#v", c16tag(any(expected)))
 	if gs != es {
 		kind := "partition"
 		gm := got.(map[string]any)
-		for name, ev := range expected {
-			if fmt.Sprintf("%#v", gm[name]) != fmt.Sprintf("%#v", ev) {
+		// deterministic classification: fields in declaration order, then the inline part
+		var order []string
+		for _, f := range t.fields {
+			order = append(order, f.name)
+		}
+		order = append(order, "Rest")
+		for _, name := range order {
+			ev, has := expected[name]
+			if !has {
+				continue
+			}
+			if fmt.Sprintf("%#v", gm[name]) != fmt.Sprintf("%#v", c16tag(ev)) {
 				if name == "Rest" {
 					kind = "partition:inline"
 				} else if srcOf[name] == "" {
@@ -468,16 +479,41 @@ func c16judgeDoc(t c16type, keys []string, st map[string]int, prefill bool) c16v
 	dst2 := mkDst()
 	var err2 error
 	if pan := report.Catch(func() { err2 = node.Decode(dst2.Interface()) }); pan != "" {
-		return c16verdict{} // yaml.v3 cannot handle this type/doc: nothing to compare
+		return c16verdict{yamlRejected: true} // yaml.v3 cannot handle this type/doc: nothing to compare (counted)
 	}
 	if err2 != nil {
-		return c16verdict{}
+		return c16verdict{yamlRejected: true}
 	}
-	g2 := fmt.Sprintf("%#v", c16norm(dst2.Elem()))
+	g2 := fmt.Sprintf("%#v", c16tag(c16norm(dst2.Elem())))
 	if g2 != gs {
 		return c16verdict{kind: "differs-from-yaml.v3", detail: "ordered " + gs + "\nyaml.v3 " + g2, compared2: true}
 	}
 	return c16verdict{compared2: true}
+}
+
+// c16tag makes the dynamic type of every scalar visible (fmt's %#v prints int 1 and float64 1 alike).
+func c16tag(v any) any {
+	switch t := v.(type) {
+	case map[string]any:
+		out := map[string]any{}
+		for k, x := range t {
+			out[k] = c16tag(x)
+		}
+		return out
+	case []any:
+		out := make([]any, len(t))
+		for i, x := range t {
+			out[i] = c16tag(x)
+		}
+		return out
+	case int:
+		return fmt.Sprintf("int:%d", t)
+	case float64:
+		return fmt.Sprintf("float64:%v", t)
+	case bool:
+		return fmt.Sprintf("bool:%v", t)
+	}
+	return v
 }
 
 func fieldAliases(t c16type, name string) []string {
@@ -597,6 +633,9 @@ func c16run(w *report.W) {
 						if v.compared2 {
 							w.Count("compared_with_yaml.v3", 1)
 						}
+						if v.yamlRejected {
+							w.Count("yaml.v3_rejected_or_panicked", 1)
+						}
 						if npresent > 0 {
 							w.P.Nontrivial++
 						}
@@ -663,8 +702,8 @@ func c16run(w *report.W) {
 func init() {
 	register(&report.Check{
 		ID: "C16",
-		Rule: "programs x inputs: every struct type built with reflect.StructOf from <=2 (quick) / <=3 (thorough) fields of a 15-field alphabet (string,int,bool,float64,[]string,[]int," +
-			"map[string]string,map[string]any,any,nested struct,pointer to struct,untagged,yaml:\"-\",two alias-carrying fields) x inline part in {none,map[string]any,*ordered.MapSA,struct}; " +
+		Rule: "programs x inputs: every struct type built with reflect.StructOf from <=2 (quick) / <=3 (thorough) fields of a 17-field alphabet (string,int,bool,float64,[]string,[]int," +
+			"map[string]string,map[string]any,any,nested struct,pointer to struct,untagged,yaml:\"-\",four alias-carrying fields two of which share a primary key with an alias-free or differently aliased field) x inline part in {none,map[string]any,*ordered.MapSA,struct}; " +
 			"for each type every document over its keys + aliases + an unknown key + the empty-string key (+ the inline struct's keys), each key absent / null / one of its 2-5 values, " +
 			"in forward and reversed key order, into a sentinel-prefilled and a zero destination; compared with the partition rule (field values, inline content and order) and, for alias-free " +
 			"well-typed cases, with yaml.v3's Node.Decode into the same reflect type. Non-trivial = at least one key present.",
@@ -672,6 +711,7 @@ func init() {
 			"slices/maps that receive a value start nil: append/merge-into-existing semantics are not part of the statement",
 			"yaml.v3 leaves non-nillable fields untouched on null, go-pipeline zeroes them (as the statement says): nulls on such fields are excluded from the differential only",
 			"scalar-to-slice and anything-to-string conveniences are judged by the partition oracle only (yaml.v3 rejects them)",
+			"'well-typed' means the exact scalar type documented by ordered.Unmarshal (an integer literal for a float64 field is not generated); the yaml.v3 differential is skipped for the *ordered.MapSA inline kind, for alias-carrying types and whenever yaml.v3 itself rejects the pair (counted: yaml.v3_rejected_or_panicked)",
 		},
 		Run: c16run,
 	})
